@@ -319,6 +319,14 @@ fn check_patches(graph: &Graph, key: &str, pick: &mut Rng, out: &mut Outcome) ->
         let (name, f) = &variants[(start + j) % n];
         let built = guarded(|| {
             let t = f();
+            // squash of a self-referencing note can be huge (C17's subject); GraphBuilder recurses once per
+            // sibling, so a very long sibling chain is a stack-depth question of its own (C03) — not built here
+            fn size(t: &liwe::model::tree::Tree) -> usize {
+                1 + t.children.iter().map(size).sum::<usize>()
+            }
+            if size(&t) > 3000 {
+                panic!("patch-tree-too-large");
+            }
             let mut patch = graph.new_patch();
             if j % 2 == 0 {
                 patch.build_key_from_iter(&k, TreeIter::new(&t));
